@@ -378,6 +378,8 @@ class VmWorld:
             oid = backing.child('id').leaf(e, z3.BitVecSort(64))
             if not str(backing.key()).startswith('new'):
                 e.add_constraint(allocated0(oid))
+            if 'nan_boxing' in P.features:
+                e.add_constraint(z3.And(z3.ULT(oid, 1 << 48), (oid & 7) == 0, oid != 0))
             return AbsObj(oid, h)
         eng.materialiser(OBJ_TYPES, mat_obj)
 
@@ -564,6 +566,20 @@ class VmWorld:
                     raise Unsupported('deref of ' + o.ty)
             return Ref(o.data_cell(e, ty))
         m(r'^<(laythe_core::)?(reference::)?(obj_reference::)?ObjRef as (std::ops::|core::ops::)?Deref(Mut)?>::deref(_mut)?$', m_objref_deref)
+
+        if 'nan_boxing' in P.features:
+            # NaN-boxed build: pointer <-> integer conversions carry the object identity
+            class AddrPtr:
+                def __init__(self, a):
+                    self.a = a
+
+                def copy_value(self, eng_):
+                    return self
+            eng.ptr_from_addr = lambda a, to: AddrPtr(a)
+            m(r'^(std::ptr::|core::ptr::)?NonNull::new_unchecked$', lambda e, a, c: a[0])
+            m(r'^(laythe_core::)?(reference::)?(obj_reference::)?ObjectRef::new$',
+              lambda e, a, c: AbsObj(a[0].a, 'ObjectRef') if isinstance(a[0], AddrPtr) else AbsObj(obj_of(e, a[0]).id, 'ObjectRef'))
+            m(r'^(laythe_core::)?(\w+::)*(ObjRef|ObjectRef|LyStr|List|Tuple|Instance)::to_usize$', lambda e, a, c: obj_of(e, a[0]).id)
 
         # Value <- object conversions:  <Value as From<X>>::from  where X is an object reference
         def m_value_from_obj(e, a, c):
